@@ -470,6 +470,9 @@ func (u *U) build2(s *State, rt reflect.Type, gt *ast.Type, path string, h uint6
 			poss := s.Schema.GetPossibleTypes(def)
 			names := make([]string, 0, len(poss))
 			for _, p := range poss {
+				if p.Kind != ast.Object {
+					continue // an interface implementing this interface is not a concrete type
+				}
 				names = append(names, p.Name)
 			}
 			sort.Strings(names)
